@@ -35,7 +35,7 @@ MinS2S == 15
 ConsolidationMethods == {"single", "multi", "emptiness"}
 
 NoWorld == [exists |-> FALSE, pools |-> <<>>, claims |-> <<>>, nodes |-> <<>>, pods |-> <<>>, pdbs |-> <<>>]
-St0(cfg) == [cfg |-> cfg, world |-> NoWorld, marked |-> {}, inflight |-> {}]
+St0(cfg) == [cfg |-> cfg, world |-> NoWorld, marked |-> {}, inflight |-> {}, tableChanged |-> FALSE]
 
 TraceInit == l = 1 /\ st = St0([spotToSpot |-> FALSE]) /\ viol = <<>> /\ ntr = 0 /\ ncmd = 0 /\ done = FALSE
 
@@ -116,7 +116,8 @@ Rel(a, b) == IF a = b THEN "equal" ELSE "dearer"
 Dyadic(p) == p % 12500 = 0
 InexactPrices(cv, it) == \/ \E i \in DOMAIN cv.cands : ~Dyadic(cv.cands[i].price)
                          \/ \E j \in OkOffs(it) : ~Dyadic(it.offs[j].price)
-FloatMark(cv, it, a, b) == IF a = b /\ Len(cv.cands) > 1 /\ InexactPrices(cv, it) THEN ":sum-of-inexact-float-prices" ELSE ""
+FloatMark(cv, it, a, b) == (IF a = b /\ Len(cv.cands) > 1 /\ InexactPrices(cv, it) THEN ":sum-of-inexact-float-prices" ELSE "")
+                           \o (IF st.tableChanged THEN ":price-table-changed-while-waiting" ELSE "")
 SigCheaper(cv) ==
     LET it == FirstBadOpt(cv, LAMBDA o : Launchable(o) /\ ~(WorstPrice(o) < CandSum(cv)))
     IN LaunchCt(it) \o ":" \o Rel(WorstPrice(it), CandSum(cv)) \o (IF Len(cv.cands) > 1 THEN ":multi" ELSE ":single")
@@ -130,6 +131,7 @@ SigSameType(cv) ==
     LET it == FirstBadOpt(cv, LAMBDA o : Launchable(o) /\ SameAs(cv, o) # {}
                                          /\ ~(WorstPrice(o) < MinOf({cv.cands[c].price : c \in SameAs(cv, o)})))
     IN LaunchCt(it) \o ":" \o Rel(WorstPrice(it), MinOf({cv.cands[c].price : c \in SameAs(cv, it)}))
+       \o (IF st.tableChanged THEN ":price-table-changed-while-waiting" ELSE "")
 SigEmpty(cv) == IF cv.nrepl # 0 THEN "replacement" ELSE "costly-pod"
 
 CmdChecks(cmd) ==
@@ -179,20 +181,27 @@ TQCmd == /\ Ev.e = "QCmd"
 TEnv == /\ Ev.e = "Env"
         /\ st' = CASE Ev.what = "Mark"   -> [st EXCEPT !.marked = @ \cup {Ev.name}]
                    [] Ev.what = "Unmark" -> [st EXCEPT !.marked = @ \ {Ev.name}]
+                   [] Ev.what = "SetOffering" -> [st EXCEPT !.tableChanged = TRUE]
                    [] OTHER -> st
         /\ UNCHANGED <<viol, ncmd>>
+
+\* a decision begins (a method's ComputeCommands / a controller round): from here on a change of the price table happens
+\* WHILE the command is computed or waits for its validation (ghost, used for witness classes only)
+TBegin == /\ Ev.e = "Begin"
+          /\ st' = IF Ev.controller \in {"disruption.method", "disruption"} THEN [st EXCEPT !.tableChanged = FALSE] ELSE st
+          /\ UNCHANGED <<viol, ncmd>>
 
 TRestart == /\ Ev.e = "Restart"
             /\ st' = [st EXCEPT !.marked = {}, !.inflight = {}]
             /\ UNCHANGED <<viol, ncmd>>
 
 \* every other event of the (shared, additively growing) disruption trace format is consumed without judgement
-TOther == Ev.e \notin {"Cfg", "World", "Cmd", "QCmd", "Env", "Restart"} /\ UNCHANGED <<st, viol, ncmd>>
+TOther == Ev.e \notin {"Cfg", "World", "Cmd", "QCmd", "Env", "Restart", "Begin"} /\ UNCHANGED <<st, viol, ncmd>>
 
 TraceNext ==
     \/ /\ l <= Len(Trace) /\ l' = l + 1 /\ UNCHANGED done
        /\ \/ (Ev.e = "Cfg" /\ st' = St0(Ev) /\ ntr' = ntr + 1 /\ UNCHANGED <<viol, ncmd>>)
-          \/ ((TWorld \/ TCmd \/ TQCmd \/ TEnv \/ TRestart \/ TOther) /\ UNCHANGED ntr)
+          \/ ((TWorld \/ TCmd \/ TQCmd \/ TEnv \/ TBegin \/ TRestart \/ TOther) /\ UNCHANGED ntr)
     \/ /\ l = Len(Trace) + 1 /\ ~done /\ done' = TRUE
        /\ JsonSerialize(IOEnv.OUT, [viol |-> viol, consumed |-> l - 1, traces |-> ntr, commands |-> ncmd])
        /\ UNCHANGED <<l, st, viol, ntr, ncmd>>
